@@ -301,15 +301,28 @@ func exec(planJSON []byte, run *core.Run) {
 		}
 	}
 	setupS := func(s *hpke.Sender) (enc []byte, sealer hpke.Sealer, err error) {
+		// the pre-shared key and its id are handed over in buffers that are wiped once the
+		// context exists (nil stays nil: absence is meaningful here)
+		cp := func(b []byte) []byte {
+			if b == nil {
+				return nil
+			}
+			return append([]byte{}, b...)
+		}
+		pskBuf, idBuf := cp(psk), cp(pskID)
+		defer func() {
+			core.Recycle(pskBuf)
+			core.Recycle(idBuf)
+		}()
 		switch mode {
 		case hpkeref.ModeBase:
 			return s.Setup(ent)
 		case hpkeref.ModePSK:
-			return s.SetupPSK(ent, psk, pskID)
+			return s.SetupPSK(ent, pskBuf, idBuf)
 		case hpkeref.ModeAuth:
 			return s.SetupAuth(ent, skS)
 		default:
-			return s.SetupAuthPSK(ent, skS, psk, pskID)
+			return s.SetupAuthPSK(ent, skS, pskBuf, idBuf)
 		}
 	}
 	enc, sealer, err := setupS(snd)
@@ -524,7 +537,12 @@ func exec(planJSON []byte, run *core.Run) {
 		switch op.K {
 		case "seal":
 			pt, aad := core.H(op.Pt), core.H(op.Aad)
+			ptK, aadK := append([]byte{}, pt...), append([]byte{}, aad...)
 			ct, err := sealer.Seal(pt, aad)
+			if !bytes.Equal(pt, ptK) || !bytes.Equal(aad, aadK) {
+				run.Violate("hpke.Sealer.Seal", "operation-modifies-its-operand", "Seal changed its plaintext / aad buffer")
+				return
+			}
 			run.Tick(1)
 			run.Event("sender", "seal", ct, err)
 			if err != nil {
